@@ -24,7 +24,7 @@ DEFAULT_VERSIONS = {0: (0, 2), 1: (0, 2), 2: (0, 0), 3: (0, 0), 8: (0, 2), 9: (0
 
 class LogEntry(object):
     """A stored unit: one plain message or one compressed wrapper with its inner messages."""
-    __slots__ = ("msgs", "magic", "wrapper", "raw", "corrupt", "raw_clean", "heal")
+    __slots__ = ("msgs", "magic", "wrapper", "raw", "corrupt", "raw_clean", "heal", "rel0")
 
     def __init__(self, msgs, magic, wrapper, raw=None):
         self.msgs = msgs
@@ -32,6 +32,7 @@ class LogEntry(object):
         self.wrapper = wrapper
         self.raw = raw  # pre-encoded native bytes (set when corrupted or nested by the generator)
         self.corrupt = False
+        self.rel0 = 0
 
     @property
     def first(self):
@@ -47,7 +48,7 @@ class LogEntry(object):
         mg = self.magic if magic is None else magic
         if self.wrapper:
             ms = [Msg(m.offset, m.key, m.value, mg, m.timestamp if mg == 1 else None) for m in self.msgs]
-            return kwire.encode_wrapper(ms, mg)
+            return kwire.encode_wrapper(ms, mg, rel0=self.rel0 if mg == 1 else 0)
         m = self.msgs[0]
         return kwire.encode_entry(m.offset, kwire.encode_message(mg, 0, m.key, m.value, m.timestamp if mg == 1 else None))
 
@@ -129,6 +130,7 @@ class Broker(object):
         self.conns = {}
         self.frozen_meta = None
         self.req_count = 0
+        self.hidden = False  # decommissioned: still serving, but absent from metadata answers
 
     # -- acceptor interface of SimNet --
     def accept(self, conn):
@@ -272,6 +274,30 @@ class SimCluster(object):
                 if p.leader == -1 and node in p.replicas:
                     p.leader = node
 
+    def delete_topic(self, topic):
+        if self.topics.pop(topic, None) is not None:
+            self.net.fault("topic_deleted")
+
+    def shrink_topic(self, topic):
+        t = self.topics.get(topic)
+        if t is not None and len(t.partitions) > 1:
+            t.partitions.pop(max(t.partitions))
+            self.net.fault("topic_shrunk")
+
+    def hide_broker(self, node, elect=True):
+        b = self.brokers[node]
+        b.hidden = True
+        self.net.fault("broker_decommissioned")
+        others = sorted(x.node for x in self.alive() if not x.hidden)
+        if elect and others:
+            for t in self.topics.values():
+                for p in t.partitions.values():
+                    if p.leader == node:
+                        p.leader = others[(p.pid + node) % len(others)]
+            for g, n in list(self.coordinator_of.items()):
+                if n == node:
+                    self.coordinator_of[g] = others[0]
+
     def advance_log_start(self, topic, pid, to):
         p = self.part(topic, pid)
         if p is None:
@@ -392,8 +418,8 @@ class SimCluster(object):
             raw = _garble(raw, self.rng, rule.get("mode", "flip"))
         framed = struct.pack(">I", len(raw)) + raw
         delay = 0.0
-        if act == "delay":
-            delay = rule["delay"]
+        if rule is not None and rule.get("delay"):
+            delay = rule["delay"]  # (also together with "error": a late error answer)
 
         def put():
             if st["dead"]:
@@ -606,6 +632,21 @@ class SimCluster(object):
         self.sim.after(wait_s, fire)
 
     def _fetch_reply(self, broker, st, entry, rule, topics_out):
+        if rule is not None and rule["act"] == "garbage" and rule.get("mode") == "neg_msg_size":
+            # hostile MessageSize fields inside the message set (negative values that would move a cursor backwards)
+            for t in topics_out:
+                for p in t["partitions"]:
+                    ents, _used = kwire.frame_entries(p["records"])
+                    if not ents:
+                        continue
+                    i = self.rng.randrange(len(ents))
+                    pos = sum(12 + e[1] for e in ents[:i]) + 8
+                    back = sum(12 + e[1] for e in ents[:i])
+                    val = self.rng.choice([-12, -12, -(12 + back), -13, -2, -2 ** 31, -(8 + back)])
+                    rec = bytearray(p["records"])
+                    rec[pos:pos + 4] = struct.pack(">i", val)
+                    p["records"] = bytes(rec)
+                    self.net.fault("hostile_message_size")
         served = []
         for t in topics_out:
             for p in t["partitions"]:
@@ -659,7 +700,7 @@ class SimCluster(object):
 
     # Metadata --------------------------------------------------------------------------------
     def metadata_snapshot(self, names=None):
-        brokers = [{"node": b.node, "host": b.host, "port": b.port} for b in sorted(self.alive(), key=lambda b: b.node)]
+        brokers = [{"node": b.node, "host": b.host, "port": b.port} for b in sorted(self.alive(), key=lambda b: b.node) if not b.hidden]
         alive = set(b["node"] for b in brokers)
         topics = []
         want = names if names else sorted(self.topics)
